@@ -221,6 +221,33 @@ def check(hyps, goal, extra=(), want_model=True, try_cvc5=True, rlimit=RLIMIT, p
     return Result(first_status, "z3", time.time() - t0, model, reason)
 
 
+def permute_asserts(text: str, seed):
+    """Same problem with the top-level (assert ...) commands reversed (seed None) or shuffled (seed int)."""
+    import random
+    lines = text.split("\n")
+    # group the text into top-level commands by parenthesis depth
+    cmds, cur, depth = [], [], 0
+    for ln in lines:
+        cur.append(ln)
+        depth += ln.count("(") - ln.count(")")
+        if depth <= 0 and any(x.strip() for x in cur):
+            cmds.append("\n".join(cur))
+            cur, depth = [], 0
+    if cur:
+        cmds.append("\n".join(cur))
+    idx = [i for i, c in enumerate(cmds) if c.lstrip().startswith("(assert")]
+    if len(idx) < 3:
+        return None
+    asserts = [cmds[i] for i in idx]
+    if seed is None:
+        asserts.reverse()
+    else:
+        random.Random(seed).shuffle(asserts)
+    for i, a in zip(idx, asserts):
+        cmds[i] = a
+    return "\n".join(cmds)
+
+
 def race(smt2: str, try_cvc5=True, limit_s=None):
     import shutil
     limit_s = limit_s or CLI_TLIMIT_S
@@ -242,6 +269,15 @@ def race(smt2: str, try_cvc5=True, limit_s=None):
                     [exe, f"-T:{limit_s}", f"rlimit={RLIMIT_CLI}", "smt.mbqi=false", "smt.auto_config=false",
                      "smt.qi.eager_threshold=100", f"smt.random_seed={seed}", zp],
                     stdout=subprocess.PIPE, stderr=subprocess.DEVNULL, text=True)
+        if exe:
+            # E-matching is sensitive to the order of the assertions: two more runs on permuted texts
+            for label, text in (("z3-cli(reversed)", permute_asserts(ztext, None)), ("z3-cli(shuffled)", permute_asserts(ztext, 7))):
+                if text is None:
+                    continue
+                zp3 = tmp(text)
+                procs[label] = subprocess.Popen(
+                    [exe, f"-T:{limit_s}", f"rlimit={RLIMIT_CLI}", "smt.mbqi=false", "smt.auto_config=false",
+                     "smt.qi.eager_threshold=100", zp3], stdout=subprocess.PIPE, stderr=subprocess.DEVNULL, text=True)
         if exe:
             # the SMT core without the default preprocessing (what the in-process solver does), larger budget
             zp2 = tmp(ztext.replace("(check-sat)", "(check-sat-using smt)"))
